@@ -23,6 +23,10 @@ def draw_vars(rng, n, max_dom=3):
     return out
 
 
+NARROW = {"narrow8": 2 ** 7 - 1, "narrow16": 2 ** 15 - 1, "narrow32": 2 ** 31 - 1}
+NARROW_DTYPE = {"narrow8": "int8", "narrow16": "int16", "narrow32": "int32"}
+
+
 def draw_value(rng, mag):
     if mag == "small":
         return rng.randint(-5, 9)
@@ -38,6 +42,10 @@ def draw_value(rng, mag):
         return rng.choice([float("inf"), float("inf"), -float("inf"), rng.randint(0, 5)])
     if mag == "mixed":
         return draw_value(rng, rng.choice(["small", "float", "big", "huge", "inf"]))
+    if mag in NARROW:
+        # values that fit a fixed-width table (numpy dtype given by the spec) while sums of two or three do not
+        top = NARROW[mag]
+        return rng.choice([top - rng.randint(0, 9), top // 2 + rng.randint(0, 9), -(top - rng.randint(0, 9)), rng.randint(0, 5)])
     raise ValueError(mag)
 
 
@@ -164,7 +172,7 @@ def build_relation(spec, cache=None):
         shape = tuple(len(v[1]) for v in spec["vars"])
         flat = [spec["table"][key_of(spec["vars"], a)] for a in all_assignments(spec["vars"])]
         try:
-            arr = np.array(flat).reshape(shape)
+            arr = np.array(flat, dtype=spec["dtype"]).reshape(shape) if spec.get("dtype") else np.array(flat).reshape(shape)
         except (OverflowError, ValueError):
             arr = np.array(flat, dtype=object).reshape(shape)
         return R.NAryMatrixRelation(vs, arr, name=name), cache
